@@ -525,6 +525,28 @@ Example C08_trace_raised :
   snd (add_filtered_tr (fun n => classify_cp (call_predicate (raising n))) (fun i => i) mixed 1) = [1; 2; 5; 7; 8; 9].
 Proof. split; vm_compute; reflexivity. Qed.
 
+(* ---- histories: filter, change, filter again ------------------------------ *)
+(* every call is F of the forest as it is at call time and of the answers given then (the model has no state between
+   calls; the correspondence runs histories: filter -> a change that keeps the node count -> filter again with the same
+   predicate object, and a second tree of the same size).  What is true of "filtering is idempotent": a second pass with
+   the SAME answers on the already filtered forest changes nothing and meets no stop ... *)
+Theorem C08_second_pass_same_answers : forall v f, F v (F v f) = F v f /\ snd (F_f v false (F v f)) = false.
+Proof. exact F_idempotent. Qed.
+Print Assumptions C08_second_pass_same_answers.
+
+Theorem C08_inplace_second_pass : forall v f, NoDup (ids f) -> filter_inplace v (filter_inplace v f) = filter_inplace v f.
+Proof. exact inplace_second_pass. Qed.
+Print Assumptions C08_inplace_second_pass.
+
+(* ... and nothing more: once a node is re-keyed so that the predicate now rejects it (same predicate, same node
+   count), the second pass must drop it -- a memo "same predicate, same size => nothing to do" is wrong *)
+Definition rekeyed (n : nat) : verdict := if Nat.eqb n 4 then VSkip else pred_2_in_name n.
+Example C08_second_pass_after_change :
+  let g := filter_inplace pred_2_in_name fixture in
+  length (ids g) = 4 /\ filter_inplace pred_2_in_name g = g /\
+  filter_inplace rekeyed g = [nd 1 [nd 5 []]] /\ filter_inplace rekeyed g <> g.
+Proof. cbv zeta. refine (conj _ (conj _ (conj _ _))); vm_compute; try reflexivity. discriminate. Qed.
+
 (* Glue C08 <-> C04/C07 (theories/Glue/GlueFilter.v).  The copying form above ([filtered], Node.
    _add_filtered) against what the mutation machine (Mut/Machine.v) does for "Tree.copy(), then filter the
    copy in place": [op_tree_copy] allocates the copy node by node (fresh identities in pre-order),
